@@ -20,6 +20,7 @@ inductive TStep where
   | euiTok (groups : Nat)    -- `(*EUI48).parse` / `(*EUI64).parse`: that many pairs of hex digits with a dash between them
   | nodeId                  -- `stringToNodeID`: four groups of four hex digits with colons
   | salt                    -- the salt of NSEC3PARAM: `saltToString(rr.F)` (`-` when empty, else upper case) / the token, `-` standing for none
+  | ipv4                    -- an IPv4 address: `rr.A.String()` / `net.ParseIP(l.token)` with no colon in the token (A)
   | txtFirst                -- one string field: `sprintTxt([]string{rr.F})` / the first chunk of `endingToTxtSlice` (UINFO)
   | blank                   -- `c.Next()` that skips the blank / `" "`
   | slurp                   -- `slurpRemainder(c)`
